@@ -18,8 +18,9 @@ def theorems(prop):
     p = os.path.join(VERIF, "props", prop + ".theorems")
     return [l.strip() for l in open(p) if l.strip() and not l.startswith("#")]
 
-def run(ctx, prop, focuses, quick_cases, thorough_cases):
-    """focuses: list of (focus, weight); cases are split by weight."""
+def run(ctx, prop, focuses, quick_cases, thorough_cases, stress=0):
+    """focuses: list of (focus, weight); cases are split by weight. stress: number of real-thread
+    stress cases (quick tier; x10 thorough) checked by the harness-side monitors only."""
     ctx.lean_obligations("Fv.Props." + prop, theorems(prop))
     drv = ctx.lean_exe("fvdrv_cache")
     h = ctx.cargo_build("cache", "cacheh")
@@ -46,3 +47,8 @@ def run(ctx, prop, focuses, quick_cases, thorough_cases):
         n = max(50, total * wt // wsum)
         ctx.tie("cache-differential-" + focus,
                 [h, "gen", "--seed", str(ctx.seed), "--cases", str(n), "--tier", ctx.tier, "--focus", focus, "--workers", "8"], [drv], env=env)
+    if stress:
+        # real threads + live janitor (1 ms): concurrent histories checked against the per-key register with
+        # real-time order, accounting at quiescence, listener truthfulness. Not replayed on the model; replay: best-effort.
+        ctx.notes.append("stress tie: real-thread histories are checked by harness monitors only (no model replay); a hit is reproducible only statistically (cacheh stress <seed> <n>)")
+        ctx.tie("cache-real-thread-stress", [h, "stress", str(ctx.seed), str(stress if ctx.quick else stress * 10)], None, env=env)
